@@ -19,18 +19,46 @@ ASSUMPTIONS = ['the bound for the allow-listed sites is argued from the builder\
 
 # (type of self of the function, receiver path, method) -> (bound, needs clear-dominance)
 ALLOW = {
-    ('raw::build::UnfinishedNodes', 'stack', 'push'): ('one frame per byte of the current key; frames are popped by compile_from before new ones are pushed', False),
-    ('raw::build::BuilderNodeUnfinished', 'node.trans', 'push'): ('one transition per distinct next byte (<= 256), the node is moved out when frozen', False),
-    ('raw::build::Builder', 'last.@Some.0', 'push'): ('the remembered key is cleared before it is refilled', True),
-    ('raw::build::BuilderNode', 'trans', 'extend'): ('cache-cell refresh: cleared before it is refilled (<= 256 transitions)', True),
+    ('raw::build::UnfinishedNodes', 'Vec<raw::build::BuilderNodeUnfinished'): ('one frame per byte of the current key; frames are popped by compile_from before new ones are pushed', False),
+    ('raw::build::BuilderNodeUnfinished', 'Vec<raw::Transition'): ('one transition per distinct next byte (<= 256), the node is moved out when frozen', False),
+    ('raw::build::Builder', 'Vec<u8'): ('the remembered key is cleared before it is refilled', True),
+    ('raw::build::BuilderNode', 'Vec<raw::Transition'): ('cache-cell refresh: cleared before it is refilled (<= 256 transitions)', True),
 }
-INVENTORY = {('raw::build::Builder', 'last'), ('raw::registry::Registry', 'table'), ('raw::build::BuilderNode', 'trans'), ('raw::build::UnfinishedNodes', 'stack')}
+# (owning type, container type) - by type, so that renaming a field is not an alarm
+INVENTORY = {('raw::build::Builder', 'Option<Vec<u8'): 1, ('raw::registry::Registry', 'Vec<raw::registry::RegistryCell'): 1,
+             ('raw::build::BuilderNode', 'Vec<raw::Transition'): 1, ('raw::build::UnfinishedNodes', 'Vec<raw::build::BuilderNodeUnfinished'): 1}
 
 
 def self_adt(f):
     if f.impl:
         return adt_base(f.impl['self_ty'])
     return None
+
+
+def recv_type(lib, f, loc):
+    """element type signature of the container a growth call is applied to, e.g. 'Vec<u8'"""
+    import re
+    ty = f.local_ty(loc[0])
+    a = adt_base(ty)
+    for el in loc[1:]:
+        if el.startswith('@') or el.startswith('['):
+            continue
+        d = lib.adts.get(a)
+        nxt = None
+        if d:
+            for v in d['variants']:
+                for fd in v['fields']:
+                    if fd['name'] == el:
+                        nxt = fd['ty']
+        if nxt is None:
+            if el.isdigit() and 'Option<' in ty:
+                nxt = ty[ty.index('Option<') + 7:]
+            else:
+                return None
+        ty = nxt
+        a = adt_base(ty)
+    sig = growth.type_sig(ty)
+    return sig[len('Option<'):] if sig.startswith('Option<') else sig
 
 
 def run(ctx):
@@ -52,21 +80,21 @@ def run(ctx):
     for f, t, g, loc, kind in sites:
         if kind != 'state':
             continue
-        key = (self_adt(f), '.'.join(str(x) for x in loc[1:]), g.rsplit('::', 1)[-1])
+        key = (self_adt(f), recv_type(lib, f, loc))
+        path = '.'.join(str(x) for x in loc[1:])
         bid = next(b for b, tt in f.calls() if tt is t)
         if key in ALLOW:
             bound, need_clear = ALLOW[key]
             okc = (not need_clear) or growth.cleared_before(f, bid, loc)
-            ctx.check(R, okc, 'site:%s.%s.%s' % key, 'growth of %s is allow-listed only because it is cleared first, and it no longer is' % key[1], fn=f, at=t.get('span'), detail=bound)
+            ctx.check(R, okc, 'site:%s.%s' % (key[0], path), 'growth of %s is allow-listed only because it is cleared first, and it no longer is' % path, fn=f, at=t.get('span'), detail=bound)
         else:
-            ctx.violation(R, 'site:%s.%s.%s' % key, 'a container rooted in builder state grows (%s on %s) at a site that is not on the allow-list of structurally bounded sites: heap may now grow with the number of keys' % (key[2], key[1]), fn=f, at=t.get('span'))
+            ctx.violation(R, 'site:%s.%s' % (key[0], path), 'a container rooted in builder state grows (%s on %s: %s) at a site that is not on the allow-list of structurally bounded sites: heap may now grow with the number of keys' % (g.rsplit('::', 1)[-1], path, key[1]), fn=f, at=t.get('span'))
     owned = growth.owned_adts(lib, [A.builder])
-    inv = {(a, f) for a, f, ty in growth.container_fields(lib, owned)}
-    extra = inv - INVENTORY
-    for a, f in sorted(extra):
-        ty = [t for x, y, t in growth.container_fields(lib, owned) if (x, y) == (a, f)][0]
-        ctx.violation(R, 'field:%s.%s' % (a, f), 'builder-owned type %s gained a container field %s: %s - a new place where per-key data can be retained (not on the confirmed inventory)' % (a, f, ty[:60]), fn=a)
-    ctx.check(R, not extra and INVENTORY <= inv, 'inventory', 'container inventory of builder-owned types changed (missing %s)' % sorted(INVENTORY - inv), detail=sorted(inv))
+    inv = growth.type_inventory(lib, owned)
+    extra = {k: n for k, n in inv.items() if n > INVENTORY.get(k, 0)}
+    for (a, ty), n in sorted(extra.items()):
+        ctx.violation(R, 'field:%s:%s' % (a, ty[:50]), 'builder-owned type %s gained a container field of type %s - a new place where per-key data can be retained (not on the confirmed inventory)' % (a, ty[:70]), fn=a)
+    ctx.check(R, not extra, 'inventory', 'container inventory of builder-owned types changed', detail=sorted('%s: %s x%d' % (a, t[:50], n) for (a, t), n in inv.items()))
     # the minimal (never forgetting) registry must stay unlinked
     used = [p for p in reach if p.startswith('raw::registry_minimal::')]
     ctx.check(R, not used, 'no-unbounded-registry', 'the builder reaches raw::registry_minimal (a map that gains an entry per compiled node): %s' % used[:3])
